@@ -152,7 +152,10 @@ impl<L: Language> SerializableRuleConfig<L> {
         .core
         .get_matcher_with_hint(env.clone(), CheckHint::Rewriter(&vars))
         .map_err(|e| RuleConfigError::Rewriter(e, val.id.clone()))?;
-      reg.insert_rewriter(&val.id, rewriter);
+      // the registration can still refuse the rewriter (a rule that names its own id): an error, not a panic
+      reg
+        .insert_rewriter(&val.id, rewriter)
+        .map_err(|e| RuleConfigError::Rewriter(RuleCoreError::Rule(e.into()), val.id.clone()))?;
     }
     check_rewriters_in_transform(rule, reg.get_rewriters())?;
     Ok(())
